@@ -529,6 +529,12 @@ def _float_certain(fn, e, at_stmt, depth=0) -> bool:
     from ..dataflow import reaching_values, stmt_of
     if depth > 6:
         return False
+    if isinstance(e, ast.Subscript) and isinstance(e.slice, ast.Constant) and isinstance(e.slice.value, int) and isinstance(e.value, ast.Name):
+        # element i of a local bound to tuples (`a, b = t`): element i of every tuple that reaches here
+        from ..dataflow import reaching_defs as _rd
+        ds = _rd(fn, e.value.id, at_stmt)
+        if ds and all(isinstance(v, ast.Tuple) and len(v.elts) > e.slice.value for _, v in ds):
+            return all(_float_certain(fn, v.elts[e.slice.value], st_, depth + 1) for st_, v in ds)
     if isinstance(e, (ast.Subscript, ast.Starred)):
         return _float_certain(fn, e.value, at_stmt, depth + 1)
     if isinstance(e, ast.Attribute) and e.attr in ("T", "real"):
@@ -550,18 +556,28 @@ def _float_certain(fn, e, at_stmt, depth=0) -> bool:
         return any(_float_certain(fn, x, at_stmt, depth + 1) or (isinstance(x, ast.Constant) and isinstance(x.value, float)) for x in (e.left, e.right))
     if isinstance(e, ast.Name):
         params = {a.arg for a in fn.args.args + fn.args.kwonlyargs}
-        vals = reaching_values(fn, e.id, at_stmt)
+        from ..dataflow import reaching_defs
+        defs = reaching_defs(fn, e.id, at_stmt)
+        vals = [v for _, v in defs]
         if not vals:
             return False                      # a bare parameter: whatever the caller passed
-        pm = parent_map(fn)
         ok = True
-        for v in vals:
+        for st, v in defs:
             if v is None:
-                return False
-            # the defining statement of this value
-            st = next((s_ for s_ in ast.walk(fn) if isinstance(s_, ast.Assign) and s_.value is v), None)
-            if st is None:
-                return False
+                # `a, b = t` with t bound to tuples: the element of every tuple that reaches here
+                tgt = st.targets[0] if isinstance(st, ast.Assign) and len(st.targets) == 1 else None
+                if not (isinstance(tgt, ast.Tuple) and any(isinstance(x, ast.Name) and x.id == e.id for x in tgt.elts)):
+                    return False
+                i = next(k for k, x in enumerate(tgt.elts) if isinstance(x, ast.Name) and x.id == e.id)
+                srcs = [st.value]
+                if isinstance(st.value, ast.Name):
+                    srcs = [v2 for _, v2 in reaching_defs(fn, st.value.id, st)]
+                for t_ in srcs:
+                    if not (isinstance(t_, ast.Tuple) and len(t_.elts) == len(tgt.elts)):
+                        return False
+                    d_st = next((s_ for s_ in ast.walk(fn) if isinstance(s_, ast.Assign) and s_.value is t_), st)
+                    ok = ok and _float_certain(fn, t_.elts[i], d_st, depth + 1)
+                continue
             ok = ok and _float_certain(fn, v, st, depth + 1)
         # a parameter of the same name that is never reassigned before the use is not certain
         if e.id in params and not vals:
